@@ -103,6 +103,7 @@ type nrWorld struct {
 	curPath   string
 	curEncBy  int
 	curLookup []int
+	submits   int
 	dirty     bool            // the last submit reported something
 	callCtx   context.Context // context of the next rotation call when it is not the world's
 }
@@ -311,6 +312,16 @@ func (w *nrWorld) submit(step string, req *types.RotateNodeCredentialsRequest, n
 	if nc.CallerState {
 		callOpts = w.s.Opts(nodeenrollment.WithState(w.uniqueState("callers-own")))
 		r.Count("rotation_calls_carrying_a_state_option", 1)
+	}
+	if w.submits++; w.submits%3 == 0 {
+		// the caller's option list has optional members that are off (nil entries, which the library skips): in
+		// front of, between and behind the others
+		withNils := []nodeenrollment.Option{nil}
+		for _, o := range callOpts {
+			withNils = append(withNils, o, nil)
+		}
+		callOpts = withNils
+		r.Count("rotation_calls_with_nil_entries_in_the_option_list", 1)
 	}
 	cctx := w.s.Ctx
 	if w.callCtx != nil {
@@ -1585,6 +1596,7 @@ func runNodeRot(c *engine.Ctx) engine.Result {
 	}
 	r.Require("refused:storeonce-node-id-of-another-node", 8)
 	r.Require("storeonce_own_node_id_rotation_honoured", 3)
+	r.Require("rotation_calls_with_nil_entries_in_the_option_list", 100)
 	r.Require("refused:replay-after-success", 4)
 	r.Require("honest_rotations_attempted_with_a_failing_storage_wrapper_call", 8)
 	r.Require("refused:replay-of-older-payload", 4)
